@@ -8,9 +8,9 @@ package c03
 
 import (
 	"fmt"
+	"math/bits"
 	"math/rand"
 	"runtime"
-	"runtime/debug"
 	"sort"
 	"strconv"
 	"strings"
@@ -100,11 +100,6 @@ func buildBatch(r *rand.Rand) []*item {
 }
 
 func run(c *driver.Ctx) {
-	// One child per core is already running: keep this process to the goroutines of the concurrent
-	// arms, and let the heap grow a little between collections (the live heap is tiny, so the
-	// default pacing would spend most of the time in GC start/stop handshakes).
-	runtime.GOMAXPROCS(goroutines)
-	debug.SetGCPercent(400)
 	nbatches := c.Pick(16, 400)
 	for b := 0; b < nbatches; b++ {
 		if !c.Take() {
@@ -115,16 +110,40 @@ func run(c *driver.Ctx) {
 }
 
 func runBatch(c *driver.Ctx, r *rand.Rand) {
-	items := buildBatch(r)
-	cases := make([]Case, len(items))
-	for i, it := range items {
-		cases[i] = it.c
+	all := buildBatch(r)
+	for _, it := range all {
 		if !utf8.ValidString(it.c.Src) {
 			c.Inconclusive("generator produced a source text that is not UTF-8")
 			return
 		}
 	}
-	c.Note("batch of %d programs; first: %s", len(items), driver.Truncate(cases[0].Src, 300))
+	c.Note("batch of %d programs; first: %s", len(all), driver.Truncate(all[0].c.Src, 300))
+
+	// The sequential arms run on one P (one child per core is already running, and with a live heap
+	// this small the parallel collector's worker handshakes would cost more than the work itself);
+	// the concurrent arms get as many Ps as goroutines.
+	runtime.GOMAXPROCS(1)
+	// arm: own process, first execution (reference), screened for runaway allocation
+	var items []*item
+	for _, it := range all {
+		c.Note("reference execution of:\n%s", driver.Truncate(it.c.Src, 3500))
+		var heavy bool
+		var allocated uint64
+		it.ref, allocated, heavy = executeScreened(&it.c)
+		if heavy {
+			c.Count("programs_excluded_runaway_allocation", 1)
+			runtime.GC()
+			continue
+		}
+		c.Cover("allocated_per_execution_log2_bytes", strconv.Itoa(bits.Len64(allocated)))
+		it.refText = it.ref.Text()
+		items = append(items, it)
+	}
+	c.Note("batch of %d programs", len(items))
+	cases := make([]Case, len(items))
+	for i, it := range items {
+		cases[i] = it.c
+	}
 
 	// fresh processes, started now and running while this process does its own arms
 	orderA := make([]int, len(items))
@@ -152,11 +171,6 @@ func runBatch(c *driver.Ctx, r *rand.Rand) {
 		mu.Unlock()
 	}
 
-	// arm: own process, first execution (reference)
-	for _, it := range items {
-		it.ref = execute(nil, &it.c)
-		it.refText = it.ref.Text()
-	}
 	// arm: same process after >= len(items)-1 unrelated executions and a collection
 	runtime.GC()
 	for _, it := range items {
@@ -182,6 +196,7 @@ func runBatch(c *driver.Ctx, r *rand.Rand) {
 	c.Count("exec_long_lived_thread", len(items))
 
 	// arm: N goroutines execute the same program simultaneously, each on its own thread
+	runtime.GOMAXPROCS(goroutines)
 	for _, it := range items {
 		start := make(chan struct{})
 		var wg sync.WaitGroup
